@@ -5,6 +5,7 @@ import (
 	"encoding/pem"
 	"errors"
 	"fmt"
+	"os"
 	"strings"
 
 	saml2 "github.com/russellhaering/gosaml2"
@@ -81,6 +82,14 @@ func errClass(err error) string {
 		return "other:" + s
 	}
 	return "none"
+}
+
+// orchTier is the tier of the running check (bin/check exports VERIF_TIER).
+func orchTier() string {
+	if t := os.Getenv("VERIF_TIER"); t == "thorough" {
+		return t
+	}
+	return "quick"
 }
 
 func pemCert(der []byte) string {
